@@ -74,7 +74,7 @@ V_ENTRY(h_priq, int op[KOPS]; short key[KOPS];)
 #define CH2 0
 #define CH3 0
 #endif
-#define POOL 8
+#define POOL 28
 static struct btree v_pool[POOL];
 static int v_used;
 static BTree v_alloc(ULong nbytes)
@@ -167,10 +167,10 @@ static int paired(BTree x, int depth)
 {
 	int i, ok = 1;
 	for (i = 0; i < x->nKeys && i < 3; i++) if ((long) x->part[i].entry != (long) x->part[i].key + 1000) ok = 0;
-	if (!x->isLeaf && depth < 2) for (i = 0; i <= x->nKeys && i < 4; i++) if (!paired(x->part[i].branch, depth + 1)) ok = 0;
+	if (!x->isLeaf && depth < 3) for (i = 0; i <= x->nKeys && i < 4; i++) if (!paired(x->part[i].branch, depth + 1)) ok = 0;
 	return ok;
 }
-V_ENTRY(h_btree_helper, unsigned char rk[3]; unsigned char ck[4][3]; unsigned char probe;)
+V_ENTRY(h_btree_helper, unsigned char rk[3]; unsigned char ck[4][3]; unsigned char gk[4][4]; unsigned char probe;)
 {
 	static const int CH[4] = { CH0, CH1, CH2, CH3 };
 	BTree bt = &v_pool[0]; int i, j; long pre;
@@ -182,6 +182,19 @@ V_ENTRY(h_btree_helper, unsigned char rk[3]; unsigned char ck[4][3]; unsigned ch
 		c->t = 2; c->isLeaf = 1; c->nKeys = CH[j];
 		for (i = 0; i < CH[j]; i++) { c->part[i].key = in->ck[j][i]; c->part[i].entry = (BTreeElt)((long) in->ck[j][i] + 1000); }
 		bt->part[j].branch = c;
+#ifdef INNER
+		{	/* the children are interior nodes: each gets nKeys+1 minimal leaves (one key) below it, so that the
+			 * branch-pointer moves of the restructuring steps are exercised as well */
+			int g;
+			c->isLeaf = 0;
+			for (g = 0; g <= CH[j]; g++) {
+				BTree l = &v_pool[v_used++];
+				l->t = 2; l->isLeaf = 1; l->nKeys = 1;
+				l->part[0].key = in->gk[j][g]; l->part[0].entry = (BTreeElt)((long) in->gk[j][g] + 1000);
+				c->part[g].branch = l;
+			}
+		}
+#endif
 	}
 	V_ASSUME(btreeCheck(bt) == 0);
 	pre = cnt(bt, in->probe, 1);
